@@ -350,7 +350,57 @@ def guard_region(body, pred_desc, polarity, within=None):
             continue
         if _bool_edge_matches(body, l[2], l[1], pred_desc, polarity):
             out |= body.dominated_by_edge(e)
+    # a decision carried by a value of a crate-local enum: `let scope = if c { E::A } else { E::B }; match scope { E::A => .. }` - the arm of A is under c
+    for e in body.edges:
+        l = e.label
+        if not l or l[0] != "variant" or len(l[2]) != 1 or not l[1] or l[1] not in body.facts.adts:
+            continue
+        if within is not None and e.src not in within:
+            continue
+        for (d, pol) in variant_implied(body, l[1], l[2][0]):
+            if pol == polarity and pred_desc(d):
+                out |= body.dominated_by_edge(e)
+                break
     return out
+
+
+def variant_implied(body, adt, variant):
+    """[(desc item, polarity)] conditions under which *every* construction of adt::variant happens, when all of them are in this body; else []"""
+    key = ("vi", adt, variant)
+    cache = body.__dict__.setdefault("_vi", {})
+    if key in cache:
+        return cache[key]
+    sites = [bb for (bb, st) in body.aggregates(adt, variant) if path_ends(st["rv"]["adt"], adt)]
+    total = 0
+    own = set()
+    for blk in body.j["blocks"]:
+        own.add(blk.get("origin", body.name))
+    for n, b in body.facts.bodies.items():
+        if b.kind in ("Const", "Static") or body.facts.is_derived(b):
+            continue
+        cnt = sum(1 for _ in b.aggregates(adt, variant))
+        if cnt and n not in own:
+            total += cnt
+    res = []
+    if sites and total == 0:
+        common = None
+        for bb in sites:
+            facts = set()
+            for e in body.edges:
+                l = e.label
+                if l and l[0] == "bool" and l[2] is not None and bb in body.dominated_by_edge(e):
+                    for d in bool_atom_desc(body, l[2]):
+                        if d[0] == "not":
+                            for inner in d[1]:
+                                facts.add((_freeze(inner), not l[1]))
+                        else:
+                            facts.add((_freeze(d), l[1]))
+                    for (d, pol) in implied_when(body, l[2], l[1]):
+                        facts.add((_freeze(d), pol))
+            common = facts if common is None else (common & facts)
+        res = list(common or ())
+    cache[key] = res
+    return res
 
 
 def _bool_edge_matches(body, local, edge_val, pred_desc, polarity, depth=0):
@@ -562,6 +612,14 @@ def rv_origins(body, rv, bb, x, depth=0, _seen=None):
                 out.append(("field", tuple(pr.get("name") or pr.get("variant") for pr in rest), (base,)))
             else:
                 out.append(base)
+            # the awaited async fn was spliced into this view: its returns assign `Poll::Ready(value)` to the poll local - the value is visible too
+            for kind2, x2, bb2 in body.prov.defs.get(p["local"], ()):
+                if kind2 == "assign" and x2["rv"]["k"] == "agg" and x2["rv"].get("adt") == "std::task::Poll" and x2["rv"]["ops"] and x2["rv"]["ops"][0]["k"] in ("copy", "move"):
+                    inner = origins(body, x2["rv"]["ops"][0]["place"]["local"], depth + 1, _seen)
+                    if rest:
+                        out.append(("field", tuple(pr.get("name") or pr.get("variant") for pr in rest), tuple(inner)))
+                    else:
+                        out += inner
             return out
         names = tuple(pr.get("name") or pr.get("variant") for pr in projs)
         out.append(("field", names, tuple(origins(body, p["local"], depth + 1, _seen))))
